@@ -1,8 +1,8 @@
 #!/bin/bash
 # usage: tools/sweep.sh "<seeds>" "<props>" [tier]   -- run checks for several seeds on the clean tree, log exit codes
-SEEDS=${1:-"0 1 2"}; PROPS=${2:-$(python3 -c "import json;print(' '.join(c['property_id'] for c in json.load(open('/verif/MANIFEST.json'))['checks']))")}; TIER=${3:-quick}
-cd /verif
+SEEDS=${1:-"0 1 2"}; HERE=$(cd "$(dirname "$0")/.." && pwd); PROPS=${2:-$(python3 -c "import json;print(' '.join(c['property_id'] for c in json.load(open('$HERE/MANIFEST.json'))['checks']))")}; TIER=${3:-quick}
+cd "$HERE"
 for s in $SEEDS; do for p in $PROPS; do
-  t0=$(date +%s); VERIF_SEED=$s ./check $p --tier $TIER > /tmp/sweep_out.txt 2>&1; rc=$?
-  echo "seed=$s $p rc=$rc $(( $(date +%s) - t0 ))s $(grep -E 'VIOLATION|INTERNAL|TIMEOUT' /tmp/sweep_out.txt | head -2 | tr '\n' ' ')"
+  t0=$(date +%s); VERIF_SEED=$s ./check $p --tier $TIER > /tmp/sweep_out_$$.txt 2>&1; rc=$?
+  echo "seed=$s $p rc=$rc $(( $(date +%s) - t0 ))s $(grep -E 'VIOLATION|INTERNAL|TIMEOUT' /tmp/sweep_out_$$.txt | head -2 | tr '\n' ' ')"
 done; done
